@@ -16,7 +16,10 @@ import storecontract
 FAMILY = "iter"
 HARNESS = {"source": "x_iter.c", "leak_clean": True, "extra_sources": ["x_store_body.h", "cifio.h"]}
 RULE = ("exhaustive: every word over {next, update(own), update(foreign item), remove} of length <= 4 (quick) / <= 6 (thorough) "
-        "followed by close or abort, for each loop shape (1-4 items x 0-6 packets, scalar loop, packets with unset items, "
+        "followed by close or abort; a refused second get_packets at every position of every short word; savepoint sessions = every "
+        "combination of {nested-savepoint call on the iterated CIF: names, loops, getval, failing addpkt / mkloop / additem} x {1..3 successful "
+        "updates} x {failing iterator call: foreign item first / middle / last, update / remove without current packet} x {close, abort}; "
+        "for each loop shape (1-4 items x 0-6 packets, scalar loop, packets with unset items, "
         "destroyed loop); non-trivial = the iterator was opened; oracle = C06 replayed on the packets shown by the dump")
 
 FINISHED, INVALID_HANDLE, MISUSE, WRONG_LOOP, EMPTY_LOOP = 1, 4, 7, 35, 36
@@ -137,6 +140,11 @@ def generate(seed, tier):
         for w in words:
             for end in "ca":
                 yield "iter " + " ".join(pre + ["itopen", "0"] + calls(w, names, end) + ["setval", "0", nm("_free"), "C1:" + hexs("ok")])
+        # sessions around left-over savepoints (seeded change of C05: a failing iterator call whose `rollback to s` reaches a
+        # savepoint an EARLIER nested call left on the stack undoes the successful updates made in between)
+        if shp[0] in (("l2x3", "s2", "l1x2") if tier == "quick" else ("l2x3", "s2", "l1x2", "l3x1", "l2x2o", "l4x6", "l2x4", "s4")):
+            for r in savepoint_sessions(pre, names):
+                yield r
         # a refused second get_packets at every position of every short call sequence (seeded change C06_6: the clean-up ROLLBACK
         # of the refused call ended the open iterator's transaction)
         if shp[0] not in ("l1x0", "gone"):
@@ -147,6 +155,63 @@ def generate(seed, tier):
                         for end in "ca":
                             w2 = w[:pos] + kind + w[pos:]
                             yield "iter " + " ".join(pre + ["itopen", "0"] + calls(w2, names, end) + ["setval", "0", nm("_free"), "C1:" + hexs("ok")])
+
+
+NESTED = ["names", "loops", "getval", "addpkt-fail", "mkloop-fail", "additem-fail"]
+FAILS = ["wrong-first", "wrong-middle", "wrong-last", "misuse-update", "misuse-remove"]
+
+
+def nested_call(kind, names):
+    """a non-iterator call on the iterated CIF inside the iterator's transaction that works through a nested savepoint
+    (BEGIN_NESTTX = `savepoint s`; ROLLBACK_NESTTX = `rollback to s`, which keeps the savepoint on SQLite's stack) and either
+    only reads or fails softly: nothing the dumps show may change"""
+    if kind == "names":
+        return ["names", "0"]
+    if kind == "loops":
+        return ["loops", "0"]
+    if kind == "getval":
+        return ["getval", "0", nm(alt(names[0]))]
+    if kind == "addpkt-fail":        # an item of another loop: CIF_WRONG_LOOP after the row counter was bumped
+        return ["addpkt", "0", "2", nm(names[0]), "C1:" + hexs("p"), nm("_zz"), "C1:" + hexs("q")]
+    if kind == "mkloop-fail":        # the second name is the subject's: CIF_DUP_ITEMNAME after the loop row was inserted
+        return ["mkloop", "0", hexs("c9"), "2", nm("_new"), nm(alt(names[0]))]
+    if kind == "additem-fail":       # the container has the item already: CIF_DUP_ITEMNAME
+        return ["additem", "1", nm(alt(names[0])), "C1:" + hexs("r")]
+    raise ValueError(kind)
+
+
+def savepoint_sessions(pre, names):
+    """inside ONE open iterator: next; a nested-savepoint call (reads / soft failure); 1..3 SUCCESSFUL updates; a FAILING iterator
+    call (update naming an item of another loop at the first / middle / last position: CIF_WRONG_LOOP; update or remove without a
+    current packet: CIF_MISUSE, reached through a successful remove); then next, update, close or abort.  The oracle replays the
+    life cycle: the failed call must change nothing — the successful updates made before it stay visible inside the transaction
+    and are permanent after close."""
+    def upd(gen, use=None):
+        use = names if use is None else use
+        t = ["itupd", "0", str(len(use))]
+        for j, n in enumerate(use):
+            t += [nm(n), val(gen, j, 11)]
+        return t
+    for nk in NESTED:
+        for nsucc in (1, 2, 3):
+            for fk in FAILS:
+                for end in "ca":
+                    t = ["itnext", "0"] + nested_call(nk, names)
+                    for g in range(nsucc):
+                        t += upd(g, names[: 1 + (g % len(names))])
+                    if fk.startswith("wrong"):
+                        use = [(n, val(7, j, 9)) for j, n in enumerate(names)]
+                        pos = {"wrong-first": 0, "wrong-middle": (len(use) + 1) // 2, "wrong-last": len(use)}[fk]
+                        use.insert(pos, ("_zz", "C1:" + hexs("bad")))
+                        t += ["itupd", "0", str(len(use))]
+                        for n, v in use:
+                            t += [nm(n), v]
+                    elif fk == "misuse-update":
+                        t += ["itrem", "0"] + upd(8)
+                    else:
+                        t += ["itrem", "0", "itrem", "0"]
+                    t += ["itnext", "0"] + upd(9) + ["itclose" if end == "c" else "itabort", "0"]
+                    yield "iter " + " ".join(pre + ["itopen", "0"] + t + ["setval", "0", nm("_free"), "C1:" + hexs("ok")])
 
 
 def violations(req, impl):
@@ -263,6 +328,18 @@ def violations(req, impl):
             if st["rc"] != 0:
                 out.append("%s: the CIF is not free for ordinary operations after the iterator ended" % where)
             continue
+        elif o["op"] in ("names", "loops", "getval"):
+            # reads on the iterated CIF inside the iterator's transaction (cif_write does this): they succeed and change nothing
+            if st["rc"] not in (0, 44):
+                out.append("%s: a read inside the iterator's transaction should succeed" % where)
+            if st["ac"] != "0":
+                out.append("%s: the call ended the open iterator's transaction" % where)
+        elif o["op"] in ("addpkt", "mkloop", "additem"):
+            # constructed to fail softly inside the iterator's transaction: an error code, nothing changed (the dump comparison below)
+            if st["rc"] in (0, None):
+                out.append("%s: constructed to fail (item of another loop / duplicate item name)" % where)
+            if st["ac"] != "0":
+                out.append("%s: the failed call ended the open iterator's transaction" % where)
         try:
             got = S.parse_dump(st["dumps"][0].split(" ")) if st["dumps"].get(0) else []
         except S.Bad as e:
